@@ -26,6 +26,11 @@ CLAIMED = {
             "column advance that matches the consumed length, complete mode accepts only complete matches, the forest memo key covers mode/start/word, "
             "helper-rule ids are unique across merged specs, byte scanners run at byte-aligned columns only, the memo behind the API filter's verdicts distinguishes bindings, no decorator memo on the matching path misses an input, helpers do not write into the session defaults (start symbol) they are lent",
             "control dependence of yields, writer/reader prefix tables, who-may-call, sibling cross-check, key-construction tracing, chain-of-custody of the id prefix", "§3/C04, §9.2"),
+    "C05": ("partial: two necessary conditions of the round trip only - (a) every byte-aligned scanner of the incremental parser advances a fresh item over a successful full match of "
+            "length 0 (the generator can instantiate r'a*' with the empty string), (b) a bytes regex is expanded through one bijective single-byte codec, the same for decoding the "
+            "pattern and encoding the instance; that every word of the language is accepted (agreement of exrex with re/regex, completeness of the Earley closure) is not decided",
+            "constant propagation over the scanner's statements from the abstract entry state {fresh item, full match, length 0} with forking on unknown tests; "
+            "constant resolution of the codec arguments of the sibling decode / encode calls", "§3/C05, §5, §9.2"),
     "C06": ("the state-identity argument of Earley termination plus two progress clauses: items admitted to a column have a finite, hash/eq-consistent identity, the "
             "de-duplication cannot be bypassed, the column index strictly advances, a completed scan must have consumed input (unconditional no-progress rejection), "
             "the upward walk of construct_incomplete_tree takes the earliest waiting item, every item is completed in its own turn of the column loop (armed while the item identity is not finite)",
@@ -81,7 +86,6 @@ CLAIMED = {
 }
 
 NOT_APPLICABLE = {
-    "C05": "round-trip equality of generate->parse depends on the agreement of two regex engines and on Earley completeness: values, not code shape; no sound static clause in reach (DESIGN §5)",
     "C13": "equality of parse sets across all fragmentations is arithmetic on runtime offsets of incomplete terminals; only constant-equality proxies would be checkable and those are brittle (DESIGN §5)",
 }
 
